@@ -191,7 +191,14 @@ def _array_c(draw, dtypes, one_d, min_len):
     else:
         vals = draw(st.lists(_np_value(dt, small=(mode == "small")),
                              min_size=size, max_size=size))
-    return dict(t="array", dtype=dt, shape=shape, v=vals)
+    # memory layout of the array handed to the library: C order, Fortran
+    # order, a transposed view or a strided view (same logical values)
+    layout = "C"
+    if len(shape) >= 2 and size:
+        layout = draw(st.sampled_from(["C", "C", "F", "T", "strided"]))
+    elif len(shape) == 1 and size:
+        layout = draw(st.sampled_from(["C", "C", "C", "strided"]))
+    return dict(t="array", dtype=dt, shape=shape, v=vals, layout=layout)
 
 
 @functools.lru_cache(maxsize=None)
@@ -424,7 +431,19 @@ def _build(d):
     if t == "set":
         return set(_build(x) for x in d["v"])
     if t == "array":
-        return np.array(d["v"], dtype=d["dtype"]).reshape(d["shape"])
+        a = np.array(d["v"], dtype=d["dtype"]).reshape(d["shape"])
+        layout = d.get("layout", "C")
+        if layout == "F":
+            a = np.asfortranarray(a)
+        elif layout == "T":
+            # a transposed VIEW with the same logical content
+            a = np.ascontiguousarray(a.T).T
+        elif layout == "strided":
+            big = np.zeros(tuple(2 * n for n in a.shape), dtype=a.dtype)
+            view = big[tuple(slice(None, None, 2) for _ in a.shape)]
+            view[...] = a
+            a = view
+        return a
     raise AssertionError(t)
 
 
@@ -1136,8 +1155,15 @@ def _check_filename(case, ctx):
 
     names = [sc["name"] for sc in case["scalars"]]
     if case["array"] is not None:
-        names.append("grid")
-        ctx.label("fn:array_" + case["array"]["dtype"])
+        # the range representation used in file names is only defined for
+        # arrays whose consecutive differences cannot overflow (|x| < 1e15):
+        # other arrays are parameters of the object but are not embedded in
+        # the template (an exception for them is not claimed by C17)
+        if _nameable(_build(case["array"])):
+            names.append("grid")
+            ctx.label("fn:array_" + case["array"]["dtype"])
+        else:
+            ctx.label("fn:array_not_embedded(extreme values)")
     tpl = "res" + "".join(case["sep"] + "{%s}" % n for n in names) + \
         case["ext"]
     a, a2, b = make(0), make(0), make(1)
